@@ -6,6 +6,13 @@ R = "crates/radicle/src/"
 F = "crates/radicle-fetch/src/"
 
 MUTATIONS = [
+    # ---- C03
+    {"id": "m39a", "prop": "C03", "expect": r"gate:retain",
+     "edits": [(R + "git/canonical.rs", "candidates.retain(|_, votes| *votes >= self.threshold);", "candidates.retain(|_, votes| *votes > 0);")]},
+    {"id": "m39b", "prop": "C03", "expect": r"keys:entry",
+     "edits": [(R + "git/canonical.rs", "                if base == *other || base == *head {\n                    *candidates.entry(base).or_default() += 1;\n                }", "                *candidates.entry(base).or_default() += 1;")]},
+    {"id": "m39c", "prop": "C03", "expect": r"advance:descendant|diverge",
+     "edits": [(R + "git/canonical.rs", "            if base == *longest {\n                // `head` is a successor of `longest`. Update `longest`.", "            if base == *longest || base != **head {\n                // `head` is a successor of `longest`. Update `longest`.")]},
     # ---- C26 / C27 / C21
     {"id": "m36a", "prop": "C26", "expect": r"boundary|panic",
      "edits": [("crates/radicle-term/src/cell.rs", "                self[..boundary + ws].to_owned()", "                self[..boundary + 1].to_owned()")]},
